@@ -245,6 +245,15 @@ impl BlockCursor {
     { reveal(BlockCursor::at); }
     spec fn at_open(&self, j: int) -> bool { pos_is(self.block, self.position, j) }
 
+//@ extract sst/src/block.rs | impl BlockCursor :: fn new
+//@ ret r
+//@ pre <<
+        block.wf(),
+//@ >>
+//@ post <<
+        r.wf(), r.ents() == block.ents(), r.pos() == -1,
+//@ >>
+//@ end
 //@ extract sst/src/block.rs | impl BlockCursor :: fn offset
 //@ ret r
 //@ post <<
